@@ -669,7 +669,10 @@ class Process:
         if WINDOWS and self._name is not None:
             return self._name
         name = self._proc.name()
-        if POSIX and len(name) >= 15:
+        # The kernel truncates the name at 15 *bytes*, possibly in the
+        # middle of a multi-byte character, so test the encoded form.
+        bname = os.fsencode(name) if POSIX else b""
+        if POSIX and len(bname) >= 15:
             # On UNIX the name gets truncated to the first 15 characters.
             # If it matches the first part of the cmdline we return that
             # one instead because it's usually more explicative.
@@ -686,7 +689,7 @@ class Process:
             else:
                 if cmdline:
                     extended_name = os.path.basename(cmdline[0])
-                    if extended_name.startswith(name):
+                    if os.fsencode(extended_name).startswith(bname):
                         name = extended_name
         self._name = name
         self._proc._name = name
